@@ -17,6 +17,7 @@ import LenaModel.Model.C02
     | {"t":"split","bufsize":n|null,"copy":bool,"branches":[B..]}   (bufsize as given to the constructor: the driver
       applies `effBufsize`; inside a branch also {"t":"cache"} and a nested split of stateless sequence branches)
   B = {"k":"seq","stages":[S..]} | {"k":"fc","pre":[E..],"name":s,"c0":i,"post":[S..]} | {"k":"src","m":n,"base":i}
+    | {"k":"fr","pre":[E..],"stop":n|null,"post":[S..]}
       (the stages of a branch: map, filter, slice, runif — a Count only inside a runif)
   E = {"t":"map","f":F} | {"t":"filter","p":P} | {"t":"slice",..non-negative..} | {"t":"count","name":s,"c0":i}
   F = ["add",b] | ["mul",a] | ["id"];  P = ["mod",m,r] | ["lt",c] | ["ge",c] | ["all"] | ["none"] -/
@@ -62,55 +63,6 @@ def preEl? (j : Json) : Option PreEl :=
     | _, _ => none
   | _ => none
 
-/-- an element of the inner sequence of a `RunIf` (run once per selected value, so a `Count` in it keeps
-its counter from one run to the next) -/
-inductive IEl where
-  | map (f : Fn)
-  | filter (p : Pred)
-  | slice (k : Lena.C17.SliceKind)
-  | count (name : String)
-  | runif (p : Pred) (inner : List IEl)
-  /-- a stateless element given by its list semantics (a nested `Split` of stateless branches) -/
-  | opaque (den : List V → List V)
-
-mutual
-/-- the number of `Count` elements, depth first -/
-partial def IEl.counts : IEl → Nat
-  | .count _ => 1
-  | .runif _ inner => iCounts inner
-  | _ => 0
-partial def iCounts (els : List IEl) : Nat := (els.map IEl.counts).foldl (· + ·) 0
-end
-
-mutual
-/-- `seq.run(vals)` drained, with the counters of its `Count` elements (depth first) before and after -/
-partial def iRun : List IEl → List Int → List V → List V × List Int
-  | [], st, vals => (vals, st)
-  | el :: rest, st, vals =>
-    let n := el.counts
-    let r := iRunEl el (st.take n) vals
-    let q := iRun rest (st.drop n) r.1
-    (q.1, r.2 ++ q.2)
-partial def iRunEl : IEl → List Int → List V → List V × List Int
-  | .map f, st, vals => (vals.map f.app, st)
-  | .filter p, st, vals => (vals.filter p.eval, st)
-  | .slice k, st, vals =>
-    (match Lena.C17.sliceRun k vals with
-     | some (.ok ys) => ys
-     | _ => [], st)
-  | .count name, st, vals =>
-    -- `Count.run`: `self.count += count` (nothing happens on an empty flow)
-    let c := st.headD 0
-    (countDen (markCount name c) vals, [c + vals.length])
-  | .opaque den, st, vals => (den vals, st)
-  | .runif p inner, st, vals =>
-    vals.foldl (fun acc v =>
-      if p.eval v then
-        let r := iRun inner acc.2 [v]
-        (acc.1 ++ r.1, r.2)
-      else (acc.1 ++ [v], acc.2)) ([], st)
-end
-
 instance : Inhabited CTree := ⟨.leaf⟩
 
 mutual
@@ -127,12 +79,14 @@ partial def branchTree (b : Json) : CTree :=
   match str? (getD b "k") with
   | some "seq" => .seq (cTrees (getD b "stages"))
   | some "fc" => .seq (cTrees (getD b "pre") ++ [.leaf] ++ cTrees (getD b "post"))
+  | some "fr" => .seq (cTrees (getD b "pre") ++ [.leaf] ++ cTrees (getD b "post"))
   | _ => .seq []
 end
 
 def branchKind (b : Json) : Lena.C03.Kind :=
   match str? (getD b "k") with
   | some "fc" => .fillCompute
+  | some "fr" => .fillRequest
   | some "src" => .source
   | _ => .sequence
 
@@ -209,6 +163,15 @@ partial def branch? (j : Json) : Option (Lena.C03.Branch BrSt V) :=
              ops := fcOps name (fun vs => (iRun post (iInit (getD j "post")) vs).1),
              st := { pre := pre, count := c0, ctx := [] } }
     | _, _, _, _ => none
+  | some "fr" =>
+    let stop : Option (Option Nat) :=
+      if (getD j "stop").isNull then some none else (nat? (getD j "stop")).map some
+    match (arr? (getD j "pre")).bind (fun a => a.toList.mapM preEl?), stop, iEls? (getD j "post") with
+    | some pre, some stop, some post =>
+      some { id := 0, kind := .fillRequest,
+             ops := frOps stop (fun vs => (iRun post (iInit (getD j "post")) vs).1),
+             st := { pre := pre, count := 0, ctx := [] } }
+    | _, _, _ => none
   | some "src" =>
     match nat? (getD j "m"), int? (getD j "base") with
     | some m, some base =>
